@@ -67,7 +67,7 @@ def streams(ctx):
     return [("matrix", len(MATRIX)), ("random", ctx.scale(250, 6000)), ("zero_params", ctx.scale(12, 100)),
             ("probe", ctx.scale(60, 600)), ("longdoc", ctx.scale(120, 2500)), ("indented", ctx.scale(120, 2500)),
             ("shapes", ctx.scale(200, 4000)), ("nodoc", ctx.scale(100, 2000)),
-            ("big", ctx.scale(40, 600))]
+            ("big", ctx.scale(40, 600)), ("similar", ctx.scale(120, 2000))]
 
 
 def _strip_for_config(ir, et, edd_emit):
@@ -224,6 +224,8 @@ def gen_case(ctx, stream, idx):
         # descriptions with colons, brackets, quotes, '#', '%', braces
         return irgen.rand_ir(r, type_kinds=CORE_TKINDS + ("nested", "nested", "str", "literaldq"), nparams=r.randint(1, 6),
                              default_kinds=CORE_DKINDS + ("strodd", "strodd"), doc_kinds=("plain", "punct", "punct"))
+    if stream == "similar":
+        return irgen.similar_ir(r, type_kinds=CORE_TKINDS, default_kinds=CORE_DKINDS)
     if stream == "big":
         # interfaces much larger than the usual handful of parameters
         return irgen.rand_ir(r, type_kinds=CORE_TKINDS, default_kinds=CORE_DKINDS, nparams=r.randint(10, 24), max_params=24,
